@@ -251,7 +251,7 @@ pub fn run(ctx: &Ctx) {
         }
     });
     ctx.label_n("every 16-bit code as a header field delivered in pieces (5 patterns x 2 parsers)", 65536);
-    ctx.set_rule("complete enumeration: every 16-bit status code and operation id, every tag byte, and the small enums over -1..255 (thorough: +-2^20) are decoded and compared with registry tables embedded in the harness; each row also checks variant-as-code; every registered delimiter and value tag is additionally fed to both parsers inside a well-formed message and must be recognised as what the registry says; and every value-tag byte 0x10-0xff, assigned or not, is placed three times in a row after values of four different known syntaxes (932 probes) and must be read as that tag every time (an unassigned tag as raw octets carrying the tag). Every 16-bit code is also placed in a header that reaches the blocking and the async parser in pieces (5 split patterns incl. inside the field and one octet at a time): the header must carry exactly that code and decode to the same symbol as from a whole buffer. Non-trivial = a registered code or a code adjacent to one; distinct by (table, code).");
+    ctx.set_rule("complete enumeration: every 16-bit status code and operation id, every tag byte, and the small enums over -1..255 (thorough: +-2^20) are decoded and compared with registry tables embedded in the harness; each row also checks variant-as-code; every registered delimiter and value tag is additionally fed to both parsers inside a well-formed message and must be recognised as what the registry says; and every value-tag byte 0x10-0xff, assigned or not, is placed three times in a row after values of four different known syntaxes (932 probes) and must be read as that tag every time (an unassigned tag as raw octets carrying the tag). Every 16-bit code is also placed in a header that reaches the blocking and the async parser in pieces (5 split patterns incl. inside the field and one octet at a time): the header must carry exactly that code and decode to the same symbol as from a whole buffer; these headers carry varying versions and must decode as a version-1.1 header does. Every status code is also decoded under eight (version, request-id) header contexts (1.0, 2.0, 2.1, 2.2, 3.0, 0x0000, 0xffff; ids 0 to 2^32-1): same symbol, same success verdict. Non-trivial = a registered code or a code adjacent to one; distinct by (table, code).");
     ctx.set_exhaustive(true);
     for t in tables(ctx.tier == Tier::Thorough) {
         let by_code: BTreeMap<u32, &Row> = t.rows.iter().map(|r| (r.reg, r)).collect();
